@@ -690,7 +690,7 @@ class AbstractAttributeHandler(utils.ContextWeakrefMixin):
     for binding in bindings:
       val = binding.data
       if isinstance(val, abstract.TypeParameterInstance):
-        var = val.instance.get_instance_type_parameter(val.name)
+        var = val.instance.get_instance_type_parameter(val.full_name)
         # If this type parameter has visible values, we add those to the
         # return value. Otherwise, if it has constraints, we add those as an
         # upper bound on the values. When all else fails, we add an empty
